@@ -83,6 +83,17 @@ func buildPool() {
 		add("\tPUSH DS\n\tPUSH ES\n\tPOP DS\n\tPUSH CS\n\tPUSH FS\n\tPOP GS\n\tMOV AX,DS\n\tMOV ES,AX\nzl:\n\tDW zl\n", "zoo-d")
 		add("\tPUSH 1\nza:\n\tDW za\n\tPUSH 300\nzb:\n\tDW zb\n\tPUSH AX\n\tPOP BX\n\tPUSH WORD [BX]\nzc:\n\tDW zc\n\tMOV AX,1\n\tADD AX,300\n\tIN AL,0x60\n\tOUT 0x20,AL\nzd:\n\tDW zd\n", "zoo-e")
 		add("[BITS 32]\n\tPUSH 1\nza:\n\tDD za\n\tPUSH 300\nzb:\n\tDD zb\n\tPUSH EAX\n\tPOP EBX\n\tPUSH DWORD [EBX]\nzc:\n\tDD zc\n\tIMUL ECX,300\n\tSHL EAX,3\n\tNOT EDX\nzd:\n\tDD zd\n", "zoo-f")
+		// a 16-bit program without any directive that depends on the default mode at a label-sensitive place
+		// (after a [BITS 32] program has run in the same process), in the style of the book's asmhead
+		add("\tORG 0xc200\n\tMOV AX,0\n\tLGDT [zgdtr]\n\tMOV EAX,CR0\n\tJMP zflush\nzflush:\n\tMOV AX,8\n\tMOV DS,AX\n\tJMP DWORD 2*8:0x1b\n\tALIGNB 16\nzgdt:\n\tRESB 8\n\tDW 0xffff,0,0x9200,0x00cf\nzgdtr:\n\tDW 8*3-1\n\tDD zgdt\n\tDW zflush\n", "zoo-g")
+		// pairs: a branch that must be widened at statement index k in one program, a branch that fits at the
+		// same index in the other (bookkeeping about branches that survives a run shows in the second)
+		for k := 0; k < 5; k++ {
+			pre := strings.Repeat("\tNOP\n", k)
+			add(pre+"\tJNE zw\n\tRESB 200\nzw:\n\tDW zw\n", fmt.Sprintf("widen-at-%d", k))
+			add(pre+"\tJNE zs\n\tRESB 2\nzs:\n\tDW zs\n", fmt.Sprintf("short-at-%d", k))
+			add("[BITS 32]\n"+pre+"\tJNE zs\n\tRESB 2\nzs:\n\tDD zs\n", fmt.Sprintf("short32-at-%d", k))
+		}
 		// tiny programs: one catalogue statement, a label after it, both modes
 		ntiny := 20
 		if tier() == "thorough" {
